@@ -6,7 +6,9 @@ def _jobs(tier):
     jobs = []
     for k in range(1, 17):
         jobs.append(dict(sub="small", count=geo(k, 1500, 8, 10) * mult, fix=dict(k=k)))
-        jobs.append(dict(sub="svp", count=geo(k, 800, 8, 8) * mult, fix=dict(k=k)))
+        jobs.append(dict(sub="svp", count=geo(k, 800, 8, 8) * mult, fix=dict(k=k, a_size=(0, 6), res_size=(0, 6), big_size=(0, 6))))
+        if k <= 8:  # long vectors (blocked / unrolled limb loops): up to 20 limbs
+            jobs.append(dict(sub="svp", count=geo(k, 300, 8, 8) * mult, fix=dict(k=k, a_size=(7, 20), res_size=(7, 20), big_size=(0, 20))))
     return jobs
 
 
